@@ -19,6 +19,12 @@ REGIONS = [
     ('residual_take', 'src/Residual/ResidualTake/residualTake.cpp', r'void\s+ResidualTake::computeResidual\s*\(', 'restake'),
     ('direct_give_assembly', 'src/DirectSolver/DirectSolverGiveCustomLU/buildSolverMatrix.cpp', r'SparseMatrixCSR<double>\s+DirectSolverGiveCustomLU::buildSolverMatrix\s*\(', 'asmgive'),
     ('direct_take_assembly', 'src/DirectSolver/DirectSolverTakeCustomLU/buildSolverMatrix.cpp', r'SparseMatrixCSR<double>\s+DirectSolverTakeCustomLU::buildSolverMatrix\s*\(', 'asmtake'),
+    ('smoother_give_build', 'src/Smoother/SmootherGive/buildMatrix.cpp', r'void\s+SmootherGive::buildAscMatrices\s*\(', 'asmgive'),
+    ('smoother_take_build', 'src/Smoother/SmootherTake/buildMatrix.cpp', r'void\s+SmootherTake::buildAscMatrices\s*\(', 'asmtake'),
+    ('ext_smoother_give_build', 'src/ExtrapolatedSmoother/ExtrapolatedSmootherGive/buildAscMatrices.cpp',
+     r'void\s+ExtrapolatedSmootherGive::buildAscMatrices\s*\(', 'asmgive'),
+    ('ext_smoother_take_build', 'src/ExtrapolatedSmoother/ExtrapolatedSmootherTake/buildAscMatrices.cpp',
+     r'void\s+ExtrapolatedSmootherTake::buildAscMatrices\s*\(', 'asmtake'),
     ('smoother_give', 'src/Smoother/SmootherGive/smootherSolver.cpp', r'void\s+SmootherGive::smoothingForLoop\s*\(', 'give'),
     ('smoother_take', 'src/Smoother/SmootherTake/smootherSolver.cpp', r'void\s+SmootherTake::smoothing\s*\(', 'take'),
     ('ext_smoother_give', 'src/ExtrapolatedSmoother/ExtrapolatedSmootherGive/smootherSolver.cpp',
@@ -121,7 +127,8 @@ class Body:
         if len(args) > 1 and args[1].startswith('SmootherColor::'):
             col = {'SmootherColor::Black': 'false', 'SmootherColor::White': 'true'}[args[1]]
         if self.kind in ('asmgive', 'asmtake'):
-            c = {'buildSolverMatrixCircleSection': 'Circle', 'buildSolverMatrixRadialSection': 'Radial'}.get(fn)
+            c = {'buildSolverMatrixCircleSection': 'Circle', 'buildSolverMatrixRadialSection': 'Radial',
+                 'buildAscCircleSection': 'Circle', 'buildAscRadialSection': 'Radial'}.get(fn)
             if c is None:
                 raise TranslateError('unknown task function %s' % fn)
             return '(%s%s %s)' % ('AsmGive' if self.kind == 'asmgive' else 'AsmTake', c, idx)
